@@ -131,9 +131,27 @@ fn is_ambiguous_value(s: &str, yaml_12: bool) -> bool {
 ///
 /// Returns true if `s` can be emitted as a plain scalar without quoting.
 /// Internal heuristic used by `write_plain_or_quoted`.
+/// True for strings that a YAML reader does not give back unchanged when they are written as
+/// a plain scalar, whatever the position: trailing white space is trimmed, `---` / `...` at the
+/// start of a line are document markers, a plain `<<` key is the merge key, and a byte order
+/// mark is dropped at the start of a document. (Leading white space is checked by the callers.)
+fn is_altered_when_plain(s: &str) -> bool {
+    if s.ends_with(|c: char| c.is_ascii_whitespace()) {
+        return true;
+    }
+    for marker in ["---", "..."] {
+        if let Some(rest) = s.strip_prefix(marker)
+            && (rest.is_empty() || rest.starts_with(|c: char| c.is_ascii_whitespace()))
+        {
+            return true;
+        }
+    }
+    s == "<<" || s.contains('\u{FEFF}')
+}
+
 #[inline]
 pub(crate) fn is_plain_safe(s: &str) -> bool {
-    if is_ambiguous(s) {
+    if is_ambiguous(s) || is_altered_when_plain(s) {
         return false;
     }
     let bytes = s.as_bytes();
@@ -171,7 +189,7 @@ pub(crate) fn is_plain_safe(s: &str) -> bool {
 /// could be misinterpreted as a number or boolean.
 #[inline]
 pub(crate) fn is_plain_value_safe(s: &str, yaml_12: bool, in_flow: bool) -> bool {
-    if is_ambiguous_value(s, yaml_12) {
+    if is_ambiguous_value(s, yaml_12) || is_altered_when_plain(s) {
         return false;
     }
 
@@ -204,6 +222,11 @@ pub(crate) fn is_plain_value_safe(s: &str, yaml_12: bool, in_flow: bool) -> bool
     }
 
     if in_flow {
+        // A trailing " -" would stand directly in front of `,` or `]`, where the scanner takes
+        // the dash for a block entry indicator.
+        if s.ends_with(" -") {
+            return false;
+        }
         // In flow style, commas and brackets/braces are structural.
         // In values, ':' is allowed, but '#' would start a comment so still disallow '#'.
         !contains_any_or_is_control(s, &[',', '[', ']', '{', '}', '#'])
